@@ -68,3 +68,53 @@ def RELAY(**extra):
 
 
 TUNNEL_MODELS = {"ipv8_rust_tunnels.SessionKeys": "contracts.tunnel_common.SessionKeysModel"}
+
+
+# ---------------------------------------------------------------------------------------------------------------------
+# key agreement models (assumption A5)
+
+class DHPrivateKeyModel:
+    """ipv8_rust_tunnels.PrivateKey for curve25519: DH with a peer's raw public bytes, HMAC-style confirmation."""
+
+    def __init__(self, secret):
+        self.secret = secret
+
+    @classmethod
+    def generate(cls, curve_name):
+        return DHPrivateKeyModel(nondet("bytes"))
+
+    def diffie_hellman(self, peer_pub_bytes):
+        s = uf_bytes("dh", self.secret, peer_pub_bytes)
+        assume(len(s) == 32)
+        return s
+
+    def get_crypt_pk(self):
+        return uf_bytes("crypt_pk", self.secret)
+
+    def key_to_bin(self):
+        return self.secret
+
+    def pub(self):
+        from contracts.common import RustPublicKeyModel
+        return RustPublicKeyModel(uf_bytes("pub_of", self.secret))
+
+    def signature(self, msg):
+        return uf_bytes("sign", self.secret, msg)
+
+
+def crypto_auth_model(key, msg):
+    return uf_bytes("hmac", key, msg)
+
+
+def crypto_auth_verify_model(auth, key, msg):
+    return auth == uf_bytes("hmac", key, msg)
+
+
+def generate_session_keys_model(shared_secret):
+    return SessionKeysModel(uf_int("kdf", shared_secret))
+
+
+DH_MODELS = {"ipv8_rust_tunnels.PrivateKey": "contracts.tunnel_common.DHPrivateKeyModel",
+             "ipv8_rust_tunnels.crypto_auth": "contracts.tunnel_common.crypto_auth_model",
+             "ipv8_rust_tunnels.crypto_auth_verify": "contracts.tunnel_common.crypto_auth_verify_model",
+             "ipv8_rust_tunnels.generate_session_keys": "contracts.tunnel_common.generate_session_keys_model"}
